@@ -4,6 +4,9 @@ import PoryProofs.LexPos
 class the facts about the produced token: where it starts (`StartsAt`), for single-line classes
 where it ends (`SingleLine`), and that the counters stay truthful (`Steps`).
 Used by `PoryProofs/Properties/C19.lean`.
+The skipping phase is described by `Skips` (end of the file).  F16 (fixed in lexer.go and in the
+model): `skipToNextLine` stops at a newline or at the real end of the input only, so a comment may
+contain NUL characters (`skipToNextLine_shape`, `Skips.comment`, `Skips.commentEnd`).
 -/
 namespace Pory.LexPos
 open Pory Pory.Lexer
@@ -675,29 +678,30 @@ theorem skipAll_stop (s : LS) :
   skipComments_stop _ _ (Nat.lt_succ_self _) (skipWhitespace_head _ _)
 
 /-- `Skips inp rest`: `rest` is `inp` without some leading whitespace and comments, where a
-comment starts at `#` or `//` and runs up to and including the next newline or NUL character, or
-to the end of the input. -/
+comment starts at `#` or `//` and runs up to and including the next newline, or to the end of the
+input.  A comment body may contain any character except newline — NUL included (finding F16,
+fixed: `skipToNextLine` used to stop at a NUL). -/
 inductive Skips : List Char → List Char → Prop
   | done (rest : List Char) : Skips rest rest
   | ws (c : Char) (r rest : List Char) : isWs c = true → Skips r rest → Skips (c :: r) rest
-  | comment (body : List Char) (d : Char) (next rest : List Char) :
-      isCommentStart (body ++ d :: next) = true → (∀ c ∈ body, c ≠ '\n' ∧ c ≠ NUL) →
-      (d = '\n' ∨ d = NUL) → Skips next rest → Skips (body ++ d :: next) rest
+  | comment (body next rest : List Char) :
+      isCommentStart (body ++ '\n' :: next) = true → (∀ c ∈ body, c ≠ '\n') →
+      Skips next rest → Skips (body ++ '\n' :: next) rest
   | commentEnd (body : List Char) :
-      isCommentStart body = true → (∀ c ∈ body, c ≠ '\n' ∧ c ≠ NUL) → Skips body []
+      isCommentStart body = true → (∀ c ∈ body, c ≠ '\n') → Skips body []
 
 theorem Skips.of_nil {a c : List Char} (h : Skips a c) (ha : a = []) : c = [] := by
   cases h with
   | done => exact ha
   | ws d r rest hw _ => exact absurd ha (by simp)
-  | comment body d next rest hs hb hd _ => exact absurd ha (by simp)
+  | comment body next rest hs hb _ => exact absurd ha (by simp)
   | commentEnd body hs hb => rfl
 
 theorem Skips.trans {a b c : List Char} (h1 : Skips a b) (h2 : Skips b c) : Skips a c := by
   induction h1 with
   | done => exact h2
   | ws d r rest hw _ ih => exact .ws d r c hw (ih h2)
-  | comment body d next rest hs hb hd _ ih => exact .comment body d next c hs hb hd (ih h2)
+  | comment body next rest hs hb _ ih => exact .comment body next c hs hb (ih h2)
   | commentEnd body hs hb =>
     rw [h2.of_nil rfl]
     exact .commentEnd body hs hb
@@ -712,10 +716,12 @@ theorem skipWhitespace_skips (inp : List Char) (p : Pos) :
     · next hw => exact .ws c r _ hw (ih _)
     · exact .done _
 
+/-- `skipToNextLine` consumes a newline-free `body` (which may contain NUL characters) and then
+either the input ends or the newline that follows is consumed too. -/
 theorem skipToNextLine_shape (inp : List Char) (p : Pos) :
-    ∃ body, (∀ c ∈ body, c ≠ '\n' ∧ c ≠ NUL) ∧
+    ∃ body, (∀ c ∈ body, c ≠ '\n') ∧
       ((inp = body ∧ (skipToNextLine inp p).inp = []) ∨
-        ∃ d, (d = '\n' ∨ d = NUL) ∧ inp = body ++ d :: (skipToNextLine inp p).inp) := by
+        inp = body ++ '\n' :: (skipToNextLine inp p).inp) := by
   induction inp generalizing p with
   | nil => exact ⟨[], by simp, Or.inl ⟨rfl, rfl⟩⟩
   | cons c r ih =>
@@ -723,21 +729,19 @@ theorem skipToNextLine_shape (inp : List Char) (p : Pos) :
     split
     · next hc =>
       obtain ⟨body, hb, hr⟩ := ih (adv c r p)
-      have hc' : c ≠ '\n' ∧ c ≠ NUL := by simpa using hc
+      have hc' : c ≠ '\n' := by simpa using hc
       refine ⟨c :: body, ?_, ?_⟩
       · intro d hd
         rcases List.mem_cons.1 hd with rfl | hd
         · exact hc'
         · exact hb d hd
-      · rcases hr with ⟨e1, e2⟩ | ⟨d, hd, e⟩
+      · rcases hr with ⟨e1, e2⟩ | e
         · exact Or.inl ⟨by rw [e1], e2⟩
-        · exact Or.inr ⟨d, hd, by simpa using e⟩
+        · exact Or.inr (by simpa using e)
     · next hc =>
-      refine ⟨[], by simp, Or.inr ⟨c, ?_, by simp [readChar]⟩⟩
-      simp only [Bool.and_eq_true, bne_iff_ne, ne_eq, not_and, Classical.not_not] at hc
-      by_cases h : c = '\n'
-      · exact Or.inl h
-      · exact Or.inr (hc h)
+      have hc' : c = '\n' := by simpa using hc
+      subst hc'
+      exact ⟨[], by simp, Or.inr (by simp [readChar])⟩
 
 theorem skipComments_skips (n : Nat) (s : LS) : Skips s.inp (skipComments n s).inp := by
   induction n generalizing s with
@@ -748,12 +752,12 @@ theorem skipComments_skips (n : Nat) (s : LS) : Skips s.inp (skipComments n s).i
     · next hc =>
       have h1 : Skips s.inp (skipToNextLine s.inp s.p).inp := by
         obtain ⟨body, hb, hr⟩ := skipToNextLine_shape s.inp s.p
-        rcases hr with ⟨e1, e2⟩ | ⟨d, hd, e⟩
+        rcases hr with ⟨e1, e2⟩ | e
         · rw [e2]
           have := Skips.commentEnd body (by rw [← e1]; exact hc) hb
           rw [← e1] at this
           exact this
-        · have := Skips.comment body d _ _ (by rw [← e]; exact hc) hb hd (.done _)
+        · have := Skips.comment body _ _ (by rw [← e]; exact hc) hb (.done _)
           rw [← e] at this
           exact this
       exact (h1.trans (skipWhitespace_skips _ _)).trans (ih _)
